@@ -457,6 +457,13 @@ func (m *repoManager) loadNewIDs() error {
 }
 
 func (m *repoManager) putNewIDs() error {
+	m.idMutex.RLock()
+	defer m.idMutex.RUnlock()
+	return m.putNewIDsLocked()
+}
+
+// putNewIDsLocked requires that the caller holds idMutex.
+func (m *repoManager) putNewIDsLocked() error {
 	if m.readOnly {
 		dvid.Infof("Server in read-only mode: will not write metadata new version and instance IDs.\n")
 		return nil
@@ -836,7 +843,7 @@ func (m *repoManager) newInstanceID() (dvid.InstanceID, error) {
 		case "sequential":
 			curid = m.instanceID
 			m.instanceID++
-			err = m.putNewIDs()
+			err = m.putNewIDsLocked()
 		case "random":
 			s1 := rand.NewSource(time.Now().UnixNano())
 			r1 := rand.New(s1)
